@@ -18,6 +18,7 @@ def gen(rng):
     cfg = dict(statio=statio, dim=dim, w=rng.randint(1, 6) / 2, upolys=[prand(rng, nv, 3, 4) or {(0,) * nv: 1} for _ in range(nout)])
     per_facet = rng.random() < 0.5
     cfg["per_facet"] = per_facet
+    cfg["key_order"] = rng.sample(range(2 * dim), 2 * dim) if (per_facet and rng.random() < 0.6) else None
     lo = rng.randrange(nout)
     neu_possible = True
     specs = []
@@ -79,9 +80,12 @@ def build_and_eval(cfg):
     names = FACETS[dim]
     specs = cfg["specs"]
     if cfg["per_facet"]:
-        fun = {n: (mkf(s) if s else None) for n, s in zip(names, specs)}
-        cond = {n: (("von neumann" if s["neu"] else "dirichlet") if s else None) for n, s in zip(names, specs)}
-        bdim = {n: jnp.s_[cfg["lo"]:cfg["hi"]] for n in names}
+        # the three per-facet dictionaries may be written in any key order: a condition goes with the facet it names
+        order = cfg.get("key_order") or list(range(len(names)))
+        pairs = [(names[i], specs[i]) for i in order]
+        fun = {n: (mkf(s) if s else None) for n, s in pairs}
+        cond = {n: (("von neumann" if s["neu"] else "dirichlet") if s else None) for n, s in pairs}
+        bdim = {n: jnp.s_[cfg["lo"]:cfg["hi"]] for n, s in pairs}
     else:
         fun = mkf(specs[0]); cond = "von neumann" if specs[0]["neu"] else "dirichlet"; bdim = jnp.s_[cfg["lo"]:cfg["hi"]]
     kw = dict(omega_boundary_fun=fun, omega_boundary_condition=cond, omega_boundary_dim=bdim)
@@ -157,8 +161,17 @@ def generate(tier, seed, casedir, variant):
         if len(samples) < 2:
             samples.append(dict(jsonable(cfg), returned=obs))
     write_cases(casedir, "C04", "R_C04", variant, cases, chunk=100)
+    # the separable-network branches of the boundary functions against the pointwise ones (Dirichlet and Neumann, 2-D
+    # stationary and 1-D non-stationary, 1 / 2 / 3 points per axis): oracle only
+    import c11
+    nsep = 3 if tier == "quick" else 9
+    try:
+        viol += [v for v in c11.impl_vs_impl(rng, nsep, terms_only=True) if "boundary" in v["detail"] or "Neumann" in v["detail"] or "neumann" in v["detail"]]
+    except Exception as ex:
+        viol.append({"detail": f"separable / pointwise boundary comparison raised {type(ex).__name__}: {str(ex)[:300]}", "case": {"what": "impl_vs_impl"}})
+    dist["separable_vs_pointwise_rounds"] = nsep
     return dict(meta=meta, oracle_violations=viol, evaluations=len(cases), distinct_nontrivial=len(nontrivial), samples=samples, distribution=dist,
-                rule="random (stationary / non-stationary, 1-D / 2-D) polynomial networks with 1..2 outputs, non-zero polynomial boundary functions returning a 0-d array, a (1,) array or a (k,) array, global or per-facet conditions with facets set to none, component selections, 1..3 time points, hand-built border batches on the box [-1,2]x[0.5,1.5] and (every tenth case) batches made by CubicMeshPDEStatio; non-trivial = non-zero term",
+                rule="random (stationary / non-stationary, 1-D / 2-D) polynomial networks with 1..2 outputs, non-zero polynomial boundary functions returning a 0-d array, a (1,) array or a (k,) array, global or per-facet conditions (dictionaries written in any key order) with facets set to none, component selections, 1..3 time points, hand-built border batches on the box [-1,2]x[0.5,1.5] and (every tenth case) batches made by CubicMeshPDEStatio; non-trivial = non-zero term; plus separable-network against pointwise boundary terms (oracle only)",
                 oracle_checks=0)
 
 
